@@ -1,5 +1,42 @@
+(* C03 -- every randomization is an admissible rearrangement.  Statements only; proofs in
+   Lib/ShuffleTape.v and Proofs/RearrangeProofs.v.  (That caller arrays are not modified is an effect
+   property of the Python code: it is decided by bytewise snapshots in the correspondence run.) *)
 From PV Require Import Lib.Base Model.Prng Model.Core.
-Open Scope Q_scope.
-Theorem C03_placeholder_pvalue_def : forall c H reps, perm_pvalue c H reps = (qn H + qn c) / (qn reps + qn c).
-Proof. reflexivity. Qed.
-Print Assumptions C03_placeholder_pvalue_def.
+From mathcomp Require Import all_ssreflect.
+From PV Require Import Lib.Shuffle Lib.ShuffleTape Proofs.RearrangeProofs.
+Local Open Scope nat_scope.
+
+(* permute (cryptorandom Fisher-Yates), random.shuffle and random_sample(a, len(a)): for EVERY tape on which
+   they return, the output is the input read through a permutation sigma of its positions -- so the multiset of
+   values and the length are conserved, whatever the element type -- and the number of answers consumed
+   depends on the length only *)
+Theorem C03_permute_is_rearrangement : forall (T : Type) (x0 : T) (x : seq T) t y t',
+  permute x t = Ok (y, t') ->
+  exists sigma, [/\ perm_eq sigma (iota 0 (size x)), y = [seq nth x0 x i | i <- sigma] & size t = size x + size t'].
+Proof. exact permute_is_rearrangement. Qed.
+Print Assumptions C03_permute_is_rearrangement.
+
+Theorem C03_shuffle_is_rearrangement : forall (T : Type) (x0 : T) (x : seq T) t y t',
+  pyshuffle x t = Ok (y, t') ->
+  exists sigma, [/\ perm_eq sigma (iota 0 (size x)), y = [seq nth x0 x i | i <- sigma] & size t = (size x).-1 + size t'].
+Proof. exact pyshuffle_is_rearrangement. Qed.
+Print Assumptions C03_shuffle_is_rearrangement.
+
+Theorem C03_random_sample_is_rearrangement : forall (T : Type) (x0 : T) (x : seq T) t y t',
+  sample_all x t = Ok (y, t') ->
+  exists sigma, [/\ perm_eq sigma (iota 0 (size x)), y = [seq nth x0 x i | i <- sigma] & size t = size x + size t'].
+Proof. exact sample_all_is_rearrangement. Qed.
+Print Assumptions C03_random_sample_is_rearrangement.
+
+(* two_sample_core: in every repetition the rows are taken in an order that is a permutation of 0..n-1, so the
+   statistic always sees nx units in the first and n-nx in the second argument, each unit exactly once *)
+Theorem C03_two_sample_core_orders_are_permutations : forall s pot nx n reps rr t dv ar t',
+  perm_eq rr (iota 0 n) ->
+  core_loop s pot nx rr reps t = Ok (dv, ar, t') -> all (fun a => perm_eq a (iota 0 n)) ar.
+Proof. intros s pot nx n reps rr t dv ar t'. exact (@core_loop_arrs_perm s pot nx n reps rr t dv ar t'). Qed.
+Print Assumptions C03_two_sample_core_orders_are_permutations.
+
+(* one_sample: the multipliers 1 - 2*bit come from bits, so nothing but signs can change *)
+Theorem C03_one_sample_sign_bits : forall n t b t', bits n t = Ok (b, t') -> all (fun v => v < 2) b /\ size b = n.
+Proof. exact bits_are_bits. Qed.
+Print Assumptions C03_one_sample_sign_bits.
